@@ -2377,3 +2377,13 @@ func orderPreservingConv(p *Prog, from, to types.Type) bool {
 	}
 	return false // signed into unsigned: negative values wrap
 }
+
+// termKeys: the term keys in sorted order (rules that pick a term by its shape must not depend on map order)
+func (c *aeCtx) termKeys() []string {
+	ks := make([]string, 0, len(c.terms))
+	for k := range c.terms {
+		ks = append(ks, k)
+	}
+	sort.Strings(ks)
+	return ks
+}
